@@ -340,4 +340,55 @@ theorem compact_plain {ct : Which} {e : ClassInfo} {r : Req} {o : Obj} {c : Comp
     · simp only [hu, Bool.false_eq_true, if_false, Except.ok.injEq] at h
       exact h.symm
 
+/-! ## Expansion of a controlled object on a register -/
+
+/-- the compact matrix of `ControlledGate.get_compact_qobj`: the call `controlled_gate(U, range(m), [m], value)` takes the
+shortcut `controls + targets == range(N)` and returns the block matrix itself -/
+theorem build_identity (m v : ℕ) (hv : v < 2 ^ m) :
+    build ((List.range m).map Int.ofNat) [Int.ofNat m] none (v : Int) = .ok ⟨m + 1, blockDigits m v⟩ := by
+  unfold build
+  have hc : (List.range m).map Int.ofNat ++ [Int.ofNat m] = (List.range (m + 1)).map Int.ofNat := by
+    simp [List.range_succ]
+  simp only [List.length_map, List.length_range, Option.getD_none, pyIndex_nat _ _ hv, hc, if_true]
+
+/-- **`get_qobj` of a controlled object reads the control value in LISTED order**: for an object of a class that reads
+control_value, with stored controls `cs` (duplicate-free with the target `t`, all < N) and value `v < 2^m`, the compact
+matrix expanded on `N` qubits with targets = controls + targets is the specification `Ctrl.specEntry N cs t v` — `U` on
+`t` exactly when the qubits `cs`, first listed most significant, hold `v` -/
+theorem expanded_spec (ct : Which) (e : ClassInfo) (r : Req) (o : Obj) (cs : List ℕ) (t N v : ℕ)
+    (hu : e.usesCV = true) (hg : (e.generic && e.fixedGuard) = false) (ha : argCheck e.argSpec r.arg = .ok ())
+    (hc : o.controls = some (cs.map Int.ofNat)) (ht : o.targets = some [Int.ofNat t]) (hcv : o.cv = some (v : Int))
+    (hn : (cs ++ [t]).Nodup) (hr : ∀ q ∈ cs ++ [t], q < N) (hv : v < 2 ^ cs.length) :
+    ∃ res R, compact ct e r o = .ok (.block res) ∧ expanded N o res = .ok R ∧ R.K = N ∧
+      ∀ x y, Bits N x → Bits N y → R.entry x y = Ctrl.specEntry N cs t v x y := by
+  have hcomp : compact ct e r o = .ok (.block ⟨cs.length + 1, blockDigits cs.length v⟩) := by
+    unfold compact
+    simp only [hg, Bool.false_eq_true, if_false, ha, hu, if_true, hcv, hc, Option.getD_some, List.length_map]
+    rw [controlledGate_lists, build_identity _ _ hv]
+  have hcat : cs.map Int.ofNat ++ [Int.ofNat t] = (cs ++ [t]).map Int.ofNat := by simp
+  have hval : QipVerif.Embed.validate (List.replicate N 2) ((cs ++ [t]).map Int.ofNat)
+      (List.replicate (cs.length + 1) 2) = .ok (cs ++ [t]) := by
+    rw [QipVerif.C08.validate_ok_iff]
+    refine ⟨rfl, hn, by simpa using hr, ?_⟩
+    rw [List.eq_replicate_iff]
+    refine ⟨by simp, ?_⟩
+    intro b hb
+    obtain ⟨q, hq, rfl⟩ := List.mem_map.mp hb
+    have := hr q hq
+    simp [List.getD_eq_getElem?_getD, this]
+  have hexp : ∃ R, expanded N o ⟨cs.length + 1, blockDigits cs.length v⟩ = .ok R ∧ R.K = N ∧
+      ∀ x y, Bits N x → Bits N y → R.entry x y = Ctrl.specEntry N cs t v x y := by
+    unfold expanded
+    simp only [hc, ht, Option.getD_some, hcat, hval]
+    refine ⟨_, rfl, rfl, ?_⟩
+    intro x y hx hy
+    have h := placed_eq_spec N cs t v x y hx.2 hy.2
+    rw [← h]
+    simp only [placed, QipVerif.C08.expand_eq_spec N (cs ++ [t]) x y hn hr]
+    cases QipVerif.Embed.specEntry N (cs ++ [t]) x y with
+    | none => rfl
+    | some p => rfl
+  obtain ⟨R, h1, h2, h3⟩ := hexp
+  exact ⟨_, R, hcomp, h1, h2, h3⟩
+
 end QipVerif.GateCtor
